@@ -109,15 +109,20 @@ KillSysW(x, s) ==
          IN [w |-> [x EXCEPT !.alive = @ \ {s}, !.storage[s] = IF idle THEN "absent" ELSE @],
              out |-> IF idle THEN << [t |-> "sysdrop", sys |-> s] >> ELSE <<>>]
 
-(* garbage_collect_entities: drain the channel, despawn what still exists *)
-GcW(x) ==
-    LET step(acc, s) ==
-            LET r == KillSysW(acc.w, s)
-            IN [w |-> r.w, d |-> IF s \in acc.w.alive THEN Append(acc.d, s) ELSE acc.d, drops |-> acc.drops \o r.out]
-        res == FoldSeq(step, [w |-> [x EXCEPT !.gcChan = <<>>], d |-> <<>>, drops |-> <<>>], x.gcChan)
-        skip == "gc_skip" \in Mutants
-    IN IF skip THEN [w |-> x, out |-> << [t |-> "gc", d |-> <<>>, closed |-> 1] >>]
-       ELSE [w |-> res.w, out |-> << [t |-> "gc", d |-> res.d, closed |-> 1] >> \o res.drops]
+(* garbage_collect_entities: receive one entity at a time until the channel is empty; despawning one may release  *)
+(* handles and so put more entities on the channel.  Entries < 100 are systems, 100 + e are plain entities (their   *)
+(* auto-despawn signal travelled in a payload).  KillEntW is defined below; the operator is passed in.              *)
+GcLoop(x0, KillEnt(_, _)) ==
+    LET RECURSIVE loop(_, _, _)
+        loop(x, d, drops) ==
+            IF Len(x.gcChan) = 0 THEN [w |-> x, d |-> d, drops |-> drops]
+            ELSE LET h == Head(x.gcChan)
+                     x1 == [x EXCEPT !.gcChan = Tail(@)]
+                 IN IF h > 100
+                    THEN IF (h - 100) \in x1.aliveE THEN loop(KillEnt(x1, h - 100), Append(d, h), drops) ELSE loop(x1, d, drops)
+                    ELSE LET r == KillSysW(x1, h)
+                         IN loop(r.w, IF h \in x1.alive THEN Append(d, h) ELSE d, drops \o r.out)
+    IN loop(x0, <<>>, <<>>)
 
 ----------------------------------------------------------------------------
 (* registration tables                                [react_commands.rs:register_reactors, reaction_triggers_impl.rs] *)
@@ -173,6 +178,12 @@ KillEntW(x, e) ==
                              !.trk = @ \ {e}, !.elocal[e] = 0, !.hasER = @ \ {e}]
          IN DecAll(x1, MapSeq(gone, LAMBDA y : y.h))
 
+GcW(x) ==
+    LET res == GcLoop(x, KillEntW)
+        skip == "gc_skip" \in Mutants
+    IN IF skip THEN [w |-> x, out |-> << [t |-> "gc", d |-> <<>>, closed |-> 1] >>]
+       ELSE [w |-> res.w, out |-> << [t |-> "gc", d |-> res.d, closed |-> 1] >> \o res.drops]
+
 ----------------------------------------------------------------------------
 (* trackers: prepare on apply, start (first match by system) on setup, end on cleanup       [commands.rs:26-91] *)
 
@@ -194,7 +205,9 @@ DataDec(x, d) ==
 
 DataKill(x, d) ==
     IF d = 0 \/ d \notin DOMAIN x.data \/ ~x.data[d].live THEN [w |-> x, out |-> <<>>]
-    ELSE [w |-> [x EXCEPT !.data[d].live = FALSE],
+    ELSE \* the payload (and an auto-despawn signal travelling in it) is released unless the reader took it
+         [w |-> [x EXCEPT !.data[d].live = FALSE,
+                          !.gcChan = IF ~x.data[d].taken /\ x.data[d].sig # 0 THEN Append(@, 100 + x.data[d].sig) ELSE @],
           out |-> IF x.data[d].taken THEN <<>> ELSE << [t |-> "drop", p |-> x.data[d].p] >>]
 
 (* setup of command kind `kind` for system s *)
@@ -249,7 +262,7 @@ ViewW(x, take) ==
         erk(k) == IF x.er.reacting /\ x.er.rk = k THEN << <<k, x.er.rt, x.er.src, 0>> >> ELSE <<>>
         dsp == IF x.ds.reacting THEN << <<"desp", 0, x.ds.src, 0>> >> ELSE <<>>
     IN [view |-> bc \o ee \o se \o erk("ins") \o erk("mut") \o erk("rem") \o dsp,
-        w |-> IF seok THEN [x EXCEPT !.data[sed].taken = TRUE] ELSE x,
+        w |-> IF seok THEN [x EXCEPT !.data[sed].taken = TRUE, !.gcChan = IF x.data[sed].sig # 0 THEN Append(@, 100 + x.data[sed].sig) ELSE @] ELSE x,
         took |-> IF seok THEN << [t |-> "taken", p |-> x.data[sed].p], [t |-> "drop", p |-> x.data[sed].p] >> ELSE <<>>]
 
 ----------------------------------------------------------------------------
@@ -307,7 +320,7 @@ DispatchW(x, trig, ty, ent, p) ==
         cnt == IF "count_plus_one" \in Mutants THEN n + 1 ELSE n
         x1 == IF d # 0
               THEN [x EXCEPT !.nextD = @ + 1,
-                             !.data = Put(@, d, [kind |-> trig, ty |-> ty, e |-> ent, p |-> p, count |-> cnt, live |-> TRUE, taken |-> FALSE])]
+                             !.data = Put(@, d, [kind |-> trig, ty |-> ty, e |-> ent, p |-> p, count |-> cnt, live |-> TRUE, taken |-> FALSE, sig |-> 0])]
               ELSE x
         kind == CASE trig = "bc" -> "bc" [] trig = "eev" -> "eev" [] trig = "res" -> "res" [] OTHER -> "ereact"
         rk == IF trig \in {"ins", "mut", "rem"} THEN trig ELSE ""
@@ -325,6 +338,7 @@ OpEffect(x, op, ret) ==
     LET n == op[1] IN
     CASE n = "run" -> [w |-> x, out |-> <<>>, q |-> << [Cmd0 EXCEPT !.c = "run", !.s = op[2]] >>]
       [] n = "sysev" -> [w |-> x, out |-> <<>>, q |-> << [Cmd0 EXCEPT !.c = "sysev", !.s = op[2], !.p = op[3]] >>]
+      [] n = "sysevsig" -> [w |-> x, out |-> <<>>, q |-> << [Cmd0 EXCEPT !.c = "sysev", !.s = op[2], !.p = op[3], !.e = op[4]] >>]
       [] n = "bc" -> DispatchW(x, "bc", op[2], 0, op[3])
       [] n = "eev" -> DispatchW(x, "eev", op[3], op[2], op[4])
       [] n \in {"res", "resmut"} -> DispatchW(x, "res", op[2], 0, 0)
@@ -384,7 +398,7 @@ ExecCmd(x, c) ==
         \* the data entity of a system event is spawned by the command queued just before the event command
         d == IF c.c = "sysev" THEN x.nextD ELSE c.d
         x0 == IF c.c = "sysev"
-              THEN [x EXCEPT !.nextD = @ + 1, !.data = Put(@, d, [kind |-> "sysev", ty |-> 1, e |-> 0, p |-> c.p, count |-> 1, live |-> TRUE, taken |-> FALSE])]
+              THEN [x EXCEPT !.nextD = @ + 1, !.data = Put(@, d, [kind |-> "sysev", ty |-> 1, e |-> 0, p |-> c.p, count |-> 1, live |-> TRUE, taken |-> FALSE, sig |-> c.e])]
               ELSE x
         x1 == CASE kind = "sysev" -> [x0 EXCEPT !.se.prepared = Append(@, <<c.s, d>>)]
                 [] kind = "bc" -> [x0 EXCEPT !.ev.prepared = Append(@, <<c.s, d>>)]
@@ -486,7 +500,7 @@ IssueRec(r, i, op, ret) == [t |-> "issue", r |-> r, i |-> i, op |-> op, ret |-> 
 (* queue-time effect and return value of op [react_component.rs, react_resource.rs, react_commands.rs:insert] *)
 IssueW(x, op) ==
     LET n == op[1] IN
-    CASE n \in {"sysev"} -> [w |-> [x EXCEPT !.nextP = IF op[3] >= @ THEN op[3] + 1 ELSE @], ret |-> 0]
+    CASE n \in {"sysev", "sysevsig"} -> [w |-> [x EXCEPT !.nextP = IF op[3] >= @ THEN op[3] + 1 ELSE @], ret |-> 0]
       [] n = "bc" -> [w |-> [x EXCEPT !.nextP = IF op[3] >= @ THEN op[3] + 1 ELSE @], ret |-> 0]
       [] n = "eev" -> [w |-> [x EXCEPT !.nextP = IF op[4] >= @ THEN op[4] + 1 ELSE @], ret |-> 0]
       [] n = "ins" -> [w |-> x, ret |-> IF op[2] \in x.aliveE THEN 1 ELSE 0]
@@ -522,6 +536,7 @@ EBundles(e) == { << <<"emut", e, 1>> >>, << <<"eev", e, 1>> >>, << <<"emut", e, 
 FreeOp(x, cur, go(_)) ==
     \/ "run" \in OpNames /\ \E s \in Targets(x) : go(<<"run", s>>)
     \/ "sysev" \in OpNames /\ \E s \in Targets(x) : go(<<"sysev", s, x.nextP>>)
+    \/ "sysevsig" \in OpNames /\ \E s \in Targets(x), e \in Ents : go(<<"sysevsig", s, x.nextP, e>>)
     \/ "bc" \in OpNames /\ \E t \in Tys : go(<<"bc", t, x.nextP>>)
     \/ "eev" \in OpNames /\ \E e \in Ents, t \in Tys : go(<<"eev", e, t, x.nextP>>)
     \/ "res" \in OpNames /\ \E t \in Tys : go(<<"res", t>>)
@@ -589,7 +604,7 @@ RBodyEnd(x, fr, err) ==
 ----------------------------------------------------------------------------
 (* driver *)
 
-DFrame(ops) == [f |-> "d", ops |-> ops, issued |-> <<>>, pc |-> "issue", clear |-> FALSE]
+DFrame(ops) == [f |-> "d", ops |-> ops, issued |-> <<>>, pc |-> "issue", clear |-> FALSE, frame |-> FALSE]
 
 Quiesce(x) ==
     LET kinds == <<"bc", "res", "anyev", "ins", "mut", "rem", "eins", "emut", "erem", "eev", "desp">>
@@ -679,7 +694,11 @@ StepD(fr) ==
             \/ /\ Len(fr.issued) > 0
                /\ LET items == [ i \in DOMAIN fr.issued |-> [Cmd0 EXCEPT !.c = "op", !.r = -w.step, !.i = i, !.op = fr.issued[i].op, !.ret = fr.issued[i].ret] ]
                   IN Emit([w |-> PushF(SetTopF(w, [fr EXCEPT !.pc = "wait"]), QFrame(items, <<>>)), out |-> <<>>])
-      [] fr.pc = "wait" -> LET x == IF fr.clear THEN ClearW(w) ELSE w IN Emit([w |-> PopF(x), out |-> << Quiesce(x) >>])
+      [] fr.pc = "wait" ->
+            IF fr.frame
+            THEN \* the rest of App::update: Last schedule (GC, poll), then clear_trackers
+                 Emit(GcPoll(SetTopF(w, [fr EXCEPT !.frame = FALSE, !.clear = TRUE]), <<>>))
+            ELSE LET x == IF fr.clear THEN ClearW(w) ELSE w IN Emit([w |-> PopF(x), out |-> << Quiesce(x) >>])
 
 (* a driver step starts when nothing is running *)
 StepIdle ==
@@ -688,6 +707,7 @@ StepIdle ==
          /\ LET st == w.prog.steps[w.step + 1]
                 x == [w EXCEPT !.step = @ + 1]
             IN CASE st.kind = "ops" -> Emit([w |-> PushF(x, DFrame(st.ops)), out |-> << DrvRec(x, "ops") >>])
+                 [] st.kind = "frame" -> Emit([w |-> PushF(x, [DFrame(st.ops) EXCEPT !.frame = TRUE]), out |-> << DrvRec(x, "frame") >>])
                  [] st.kind = "gc" -> LET g == GcW(x) IN Emit([w |-> PushF(g.w, [DFrame(<<>>) EXCEPT !.pc = "wait"]), out |-> << DrvRec(x, "gc") >> \o g.out])
                  [] st.kind = "poll" -> LET p == PollOnly(PushF(x, [DFrame(<<>>) EXCEPT !.pc = "wait"]), << DrvRec(x, "poll") >>) IN Emit(p)
                  [] st.kind = "clear" -> LET p == GcPoll(PushF(x, [DFrame(<<>>) EXCEPT !.pc = "wait", !.clear = TRUE]), << DrvRec(x, "clear") >>) IN Emit(p)
@@ -701,6 +721,7 @@ StepIdle ==
                       [] FinalStep = "poll" -> Emit(PollOnly(PushF(xf, [DFrame(<<>>) EXCEPT !.pc = "wait"]), << DrvRec(xf, "poll") >>))
                       [] OTHER -> Emit(GcPoll(PushF(xf, [DFrame(<<>>) EXCEPT !.pc = "wait", !.clear = TRUE]), << DrvRec(xf, "clear") >>))
                ELSE \/ "ops" \in StepKinds /\ w.budget > 0 /\ Emit([w |-> PushF(x, [DFrame(<<>>) EXCEPT !.pc = "free"]), out |-> << DrvRec(x, "ops") >>])
+                    \/ "frame" \in StepKinds /\ w.budget > 0 /\ Emit([w |-> PushF(x, [DFrame(<<>>) EXCEPT !.pc = "free", !.frame = TRUE]), out |-> << DrvRec(x, "frame") >>])
                     \/ "gc" \in StepKinds /\ LET g == GcW(x) IN Emit([w |-> PushF(g.w, [DFrame(<<>>) EXCEPT !.pc = "wait"]), out |-> << DrvRec(x, "gc") >> \o g.out])
                     \/ "poll" \in StepKinds /\ Emit(PollOnly(PushF(x, [DFrame(<<>>) EXCEPT !.pc = "wait"]), << DrvRec(x, "poll") >>))
                     \/ "clear" \in StepKinds /\ Emit(GcPoll(PushF(x, [DFrame(<<>>) EXCEPT !.pc = "wait", !.clear = TRUE]), << DrvRec(x, "clear") >>))
